@@ -272,15 +272,17 @@ def main_check(modname, tier, seed):
         print("INCONCLUSIVE %s %s: %s" % (pid, r["name"], str(r.get("detail", ""))[:300]))
     print("%s tier=%s jobs=%d obligations=%d discharged=%d inconclusive=%d violations=%d wall=%.1fs" % (
         pid, tier, len(results), n_obl, n_dis, len(inconcl), len(violations), time.time() - t0))
-    if harness_errors:
-        for h in harness_errors[:10]:
-            print("HARNESS-ERROR %s: %s" % (pid, h))
-        return 3
+    # a counterexample that was replayed on the real code is a violation whatever else happened in the run; candidates that
+    # do not reproduce (or jobs that failed) are harness errors: reported, and the reserved exit status when nothing reproduced
+    for r, path in violations:
+        print("VIOLATION property=%s replay=%s" % (pid, path))
+        print("  %s: %s" % (r["name"], str(r.get("replay_detail", ""))[:500]))
+    for h in harness_errors[:10]:
+        print("HARNESS-ERROR %s: %s" % (pid, h))
     if violations:
-        for r, path in violations:
-            print("VIOLATION property=%s replay=%s" % (pid, path))
-            print("  %s: %s" % (r["name"], str(r.get("replay_detail", ""))[:500]))
         return 1
+    if harness_errors:
+        return 3
     return 0
 
 
